@@ -31,39 +31,44 @@ PID = "C10"
 LEVEL = "exploration"
 RULE = (
     "Campaign dag: Hypothesis DagProgram (1-5 tracer functions over 1-4 roots: tuple outputs, diamonds, nullary, "
-    "signature/PipeFunc defaults, bound values, initial renames) + a name-disjoint second DagProgram (all names "
-    "prefixed) + a sequence of 1-3 rewrite recipes from {copy, cloudpickle round trip, join/| with the second program "
-    "or 1-2 fresh PipeFuncs, update_renames (pipeline level or function by function; update_from current/original; "
-    "plain or dotted targets), update_scope (inputs/outputs '*'/subset/None, exclude) and its removal, nest_funcs "
-    "(set / '*') or NestedPipeFunc(...) on a convex single-leaf subset with new_output_name None/minimal/some/all in a "
-    "drawn order, simplified_pipeline(out|None, conservatively_combine), split_disconnected, add_mapspec_axis(1-2 "
-    "roots, axis=new)}; each recipe is resolved against an independent structural model that also carries the induced "
-    "renaming. Oracle: after every step (eager cases) or only at the end (lazy cases) every retained output equals the "
-    "reference DAG evaluator and the ORIGINAL pipeline object on the correspondingly renamed keyword arguments (dotted "
-    "keys, nested dicts, mixed; root-only and with one supplied intermediate), and at the end under "
-    "Pipeline.map(parallel=False) (after add_mapspec_axis: p=[v0..] gives, for every output depending on p, an array "
-    "over the new axes whose slice n is the original result for p=v_n; all other outputs unchanged). "
-    "split_disconnected must return exactly the model's connected components; simplified_pipeline must keep the "
-    "requested output and may refuse only when no predecessor shares the target's root arguments. Non-interference: "
-    "structural snapshot (output names, parameters, defaults, bound, renames, MapSpec) and sample outputs of every "
-    "pipeline that was the input of copy/pickle/join/|/simplified_pipeline/split_disconnected/NestedPipeFunc(...) are "
+    "signature/PipeFunc defaults, bound values, initial renames; one third each: full feature set / no bound values / "
+    "single-output chains and diamonds) + a name-disjoint second program (one of 6 fixed shapes, all names prefixed) + "
+    "a sequence of 1-3 rewrite recipes expanded from one drawn integer, from {copy, cloudpickle round trip, join/| "
+    "with the second program or 1-2 fresh PipeFuncs, update_renames (pipeline level or function by function; "
+    "update_from current/original; plain or dotted targets), update_scope (inputs/outputs '*'/subset/None, exclude) "
+    "and its removal, nest_funcs (set / '*') or NestedPipeFunc(...) on a convex single-leaf subset with "
+    "new_output_name None/minimal/some/all in a drawn order, simplified_pipeline(out|None, conservatively_combine), "
+    "split_disconnected, add_mapspec_axis(1-2 roots, axis=new)}; each recipe is resolved against an independent "
+    "structural model that also carries the induced renaming. Oracle: after every step (eager cases) or only at the "
+    "end (lazy cases) every retained output equals the reference DAG evaluator (and the untouched ORIGINAL pipeline "
+    "object equals it too) on the correspondingly renamed keyword arguments (dotted keys, nested dicts, mixed; "
+    "root-only and with one supplied intermediate), and at the end under Pipeline.map(parallel=False) (after "
+    "add_mapspec_axis: p=[v0..] gives, for every output depending on p, an array over the new axes whose slice n is "
+    "the original result for p=v_n; all other outputs unchanged). split_disconnected must return exactly the model's "
+    "connected components; simplified_pipeline must keep the requested output, invent none, and may refuse only when "
+    "no predecessor shares the target's root arguments. Non-interference: structural snapshot (output names, "
+    "parameters, defaults, bound, renames, MapSpec) and sample outputs of every pipeline that was the input of "
+    "copy/pickle/join/|/simplified_pipeline/split_disconnected/NestedPipeFunc(...) (and of every joined PipeFunc) are "
     "equal before/after the operation, after all later rewrites and a final update_defaults+update_renames of the "
-    "result; then each such input is itself mutated and the result must not change. Campaign map: small MapPrograms "
-    "x 1-3 rewrites from {copy, pickle, rename, scope, unscope, join with an element-wise PipeFunc, "
-    "add_mapspec_axis} checked under map against the MapSpec denotation and the original pipeline's own map. "
-    "Non-trivial = (graph with a tuple-output or interior multi-consumer node and >= 2 applied rewrites) or a scoped "
-    "call made with a nested dict; distinct by sha1 of the case."
+    "result; then each such input is itself mutated and structure and sample outputs of the result must not change. "
+    "Campaign map: small MapPrograms x 1-3 rewrites from {copy, pickle, rename, scope, unscope, join with an "
+    "element-wise PipeFunc, add_mapspec_axis} checked under map against the MapSpec denotation (per slice n for the "
+    "lifted root) and the original pipeline's own map. Non-trivial = (graph with a tuple-output or interior "
+    "multi-consumer node and >= 2 applied rewrites) or a scoped call made with a nested dict; distinct by sha1 of the "
+    "case. Confirmed defects have their own buckets (DEFECT-...); data['around']=True cases construct around them."
 )
 ASSUMPTIONS = [
     "custom name-keyed output pickers are replaced by the default tuple picker: a picker receives the *renamed* output name, so a user picker keyed on names is outside what renaming can preserve",
     "function-level update_renames is applied to every function that mentions the name (renaming one mention only changes the graph and is not a semantics-preserving rewrite)",
     "pipeline-level update_renames(update_from='original') is only used for a python-level name that denotes one and the same pipeline name in every function that has it",
     "scope names never coincide with parameter/output names; rewrites never make two names equal (fresh targets, unique base names)",
-    "nest_funcs/NestedPipeFunc only on >= 2 functions forming a convex subset with a single leaf; new_output_name always contains every output consumed outside the subset; never after add_mapspec_axis (MapSpec combination has its own documented restrictions)",
-    "simplified_pipeline is not applied after add_mapspec_axis (documented NotImplementedError) and may refuse with 'No combinable nodes' unless a direct predecessor shares the target's root arguments",
-    "add_mapspec_axis always introduces a NEW axis name on root arguments with a non-bound consumer; the order of axes of a lifted output is read from pipeline.mapspec_axes, only the set of axes is predicted",
+    "nest_funcs/NestedPipeFunc only on >= 2 functions forming a convex subset with a single leaf; new_output_name always contains every output consumed outside the subset; never after add_mapspec_axis (MapSpec combination has its own documented restrictions) and never after simplified_pipeline",
+    "an output of a nested function is requested with the root arguments of ALL members of the nest (one call produces all of its outputs); likewise all outputs of a nested function gain a new MapSpec axis together",
     "after a function was nested, an intermediate produced inside a nest is no longer supplied by keyword (nesting documents no interception of inner values)",
-    "data['around']=True cases construct around the confirmed defects (own buckets) so that exploration continues behind them; around=False cases are strict",
+    "simplified_pipeline is not applied after add_mapspec_axis (documented NotImplementedError) and may refuse with 'No combinable nodes' unless a direct predecessor shares the target's root arguments; outputs other than the requested one count as retained only if the result lists them",
+    "add_mapspec_axis always introduces a NEW axis name on root arguments with a non-bound consumer; the order of axes of a lifted output is read from the producing function's MapSpec, only the set of axes is predicted; a root that no MapSpec lists is lifted as a 1-D sequence of whole values, a listed one is stacked along a new trailing axis",
+    "MapPrograms: dict storage only, no None-returning tracers, no element-wise join on auto-generated-MapSpec producers (C01's open finding)",
+    "data['around']=True cases (3 of 4) construct around the confirmed defects so that exploration continues behind them: no nest/simplify over tuple-output leaves, bound values or dotted names, no rename of a nested function's outputs, no map of a pipeline holding a NestedPipeFunc, no reliance on defaults after a nested parameter was renamed, pipeline-level instead of function-level renames on an unpickled pipeline, no add_mapspec_axis on a root used both indexed and whole; around=False cases are strict",
 ]
 
 SCOPES = ["sA", "sB"]
@@ -117,7 +122,7 @@ def prefix_prog(prog: dict, pre: str) -> dict:
     return {"roots": [r(x) for x in prog["roots"]], "funcs": funcs, "order": list(prog["order"])}
 
 
-def build_dag(prog: dict, funcs=None):
+def build_dag(prog: dict):
     from pipefunc import Pipeline
 
     pfs = [make_pipefunc(fn, None) for fn in prog["funcs"]]
@@ -129,7 +134,7 @@ def build_dag(prog: dict, funcs=None):
 
 
 class Node:
-    __slots__ = ("members", "params", "bound", "outs", "py", "nested", "inner_bound", "leaf_multi", "out_renamed", "multi_member")
+    __slots__ = ("members", "params", "bound", "outs", "py", "nested", "inner_bound", "leaf_multi", "out_renamed", "multi_member", "param_renamed")
 
     def __init__(self, members, params, bound, outs, py):
         self.members = list(members)
@@ -142,6 +147,7 @@ class Node:
         self.leaf_multi = False  # nested: the inner leaf is a tuple-output function
         self.out_renamed = False  # nested: an exposed output was renamed after nesting
         self.multi_member = False  # nested: contains a tuple-output function
+        self.param_renamed = False  # nested: a parameter was renamed after nesting
 
     def free(self) -> list[str]:
         return [p for p in self.params if p not in self.bound]
@@ -152,7 +158,7 @@ class Node:
     def clone(self) -> "Node":
         n = Node(self.members, self.params, self.bound, self.outs, self.py)
         n.nested, n.inner_bound, n.leaf_multi = self.nested, set(self.inner_bound), self.leaf_multi
-        n.out_renamed, n.multi_member = self.out_renamed, self.multi_member
+        n.out_renamed, n.multi_member, n.param_renamed = self.out_renamed, self.multi_member, self.param_renamed
         return n
 
 
@@ -215,22 +221,27 @@ class State:
                 out.append(m)
         return out
 
-    def ancestors(self, n: Node) -> list[Node]:
+    def ancestors(self, n: Node, cut=()) -> list[Node]:
+        prod = self.produced()
         seen: list[Node] = []
         stack = [n]
         while stack:
             x = stack.pop()
-            for d in self.deps(x):
-                if d not in seen:
+            for p in x.free():
+                d = prod.get(p)
+                if d is None or d is x or p in cut:
+                    continue
+                if not any(d is y for y in seen):
                     seen.append(d)
                     stack.append(d)
         return seen
 
-    def root_args(self, n: Node) -> set[str]:
+    def root_args(self, n: Node, cut=()) -> set[str]:
+        """root arguments (current names) a call for an output of `n` needs when the names in `cut` are supplied"""
         prod = self.produced()
         ra = set()
-        for x in [n, *self.ancestors(n)]:
-            ra |= {p for p in x.free() if p not in prod}
+        for x in [n, *self.ancestors(n, cut)]:
+            ra |= {p for p in x.free() if p not in prod and p not in cut}
         return ra
 
     def leaves(self, nodes=None) -> list[Node]:
@@ -276,6 +287,8 @@ class State:
         for n in self.nodes:
             if n.nested and old in n.outs:
                 n.out_renamed = True
+            if n.nested and old in n.params:
+                n.param_renamed = True
             n.params = [new if p == old else p for p in n.params]
             n.outs = [new if p == old else p for p in n.outs]
             if old in n.bound:
@@ -389,6 +402,10 @@ class Ctx:
     def tag(self) -> str:
         return "+".join(self.applied) or "none"
 
+    def last(self) -> str:
+        """bucket component: the rewrite applied last (eager cases verified every earlier step)"""
+        return self.applied[-1] if self.applied else "none"
+
     # ---- failure classification: confirmed defects get one precise bucket each
     def classify(self, e: BaseException | None, detail: str = "") -> str | None:
         st_ = self.state
@@ -408,8 +425,24 @@ class Ctx:
             if any(n.nested and n.leaf_multi for n in st_.nodes):
                 return "DEFECT-nested-tuple-leaf-KeyError"
         if "Missing" in msg or "missing" in msg:
+            import re
+
+            named = {base(t) for t in re.findall(r"[A-Za-z_][\w.]*", msg)}
+            inv = st_.inv()
+            md = self.model().defaults if self.kind == "dag" else {}
+            lost = {base(x) for n in st_.nodes if n.nested and n.param_renamed for x in n.free() if inv.get(x) in md}
+            if lost & named:
+                # NestedPipeFunc.copy re-derives the defaults from the inner names: a renamed parameter loses its default
+                return "DEFECT-nested-copy-drops-default-of-renamed-parameter"
+            # a name bound inside a nest is exposed as a parameter of the NestedPipeFunc: it (or, when it is an upstream
+            # output, the root arguments of its producers) becomes required
             ib = {x for n in st_.nodes for x in n.inner_bound}
-            if ib and any(f"`{x}`" in msg or f"'{x}'" in msg for x in ib):
+            prod = st_.produced()
+            extra = set(ib)
+            for x in ib:
+                if x in prod:
+                    extra |= st_.root_args(prod[x])
+            if {base(x) for x in extra} & named:
                 return "DEFECT-nested-inner-bound-becomes-required"
         return None
 
@@ -432,10 +465,16 @@ class Ctx:
 
 
 def dag_kwargs(ctx: Ctx, state: State, o: str, oi: int, cut=()) -> dict:
+    """keyword arguments (original names) for requesting `o` from the CURRENT structure: a nested function needs the
+    root arguments of all its members, not only those of the member that produces `o`"""
     m = ctx.model()
+    inv = state.inv()
+    node = state.produced()[state.nm[o]]
+    need = sorted(inv[r] for r in state.root_args(node, tuple(state.nm[c] for c in cut)))
     kw = {}
-    for i, r in enumerate(m.needed_roots(o, tuple(cut))):
-        if r in m.defaults and (ctx.pick >> (1 + (oi + i) % 12)) & 1:
+    rely = not (ctx.around and any(n.nested and n.param_renamed for n in state.nodes))
+    for i, r in enumerate(need):
+        if rely and r in m.defaults and (ctx.pick >> (1 + (oi + i) % 12)) & 1:
             continue
         kw[r] = f"V{r}"
     return kw
@@ -444,9 +483,10 @@ def dag_kwargs(ctx: Ctx, state: State, o: str, oi: int, cut=()) -> dict:
 def sample_calls(ctx: Ctx, obj, state: State):
     vals = []
     outs = state.retained()
-    m = ctx.model()
-    for oi, o in enumerate(outs[:3]):
-        kw = {r: f"V{r}" for r in m.needed_roots(o)}
+    inv = state.inv()
+    prod = state.produced()
+    for o in outs[:3]:
+        kw = {inv[r]: f"V{inv[r]}" for r in state.root_args(prod[state.nm[o]])}
         try:
             vals.append([o, str(obj(state.nm[o], **{state.nm[r]: v for r, v in kw.items()}))])
         except Exception as e:
@@ -469,7 +509,7 @@ def dag_map_inputs(ctx: Ctx, state: State, skip_defaults: bool) -> tuple[dict, d
         if r in ax:
             inputs[rc] = axis_values(r, ax[r])
             continue
-        if skip_defaults and r in m.defaults and (ctx.pick >> (3 + i % 10)) & 1:
+        if skip_defaults and r in m.defaults and (ctx.pick >> (3 + i % 10)) & 1 and not (ctx.around and any(n.nested and n.param_renamed for n in state.nodes)):
             continue
         inputs[rc] = f"V{r}"
         basekw[r] = f"V{r}"
@@ -479,7 +519,10 @@ def dag_map_inputs(ctx: Ctx, state: State, skip_defaults: bool) -> tuple[dict, d
 def dag_expected_map(ctx: Ctx, state: State, o: str, basekw: dict):
     """(axes names, nested expected) for output o under map"""
     m = ctx.model()
-    need = set(m.needed_roots(o))
+    # dependence in the CURRENT structure: all outputs of a nested function are produced by one call and share its
+    # MapSpec, so they gain the axis together (the values of an output that does not use p simply repeat)
+    inv = state.inv()
+    need = {inv[r] for r in state.root_args(state.produced()[state.nm[o]])}
     axes = [a for a in state.axes if set(a["roots"]) & need]
     if not axes:
         return [], m.evaluate(o, {k: v for k, v in basekw.items()})[0]
@@ -515,7 +558,8 @@ def check_calls(ctx: Ctx, cur, state: State, full: bool) -> None:
     prod = state.produced()
     for oi, o in enumerate(state.retained()):
         c = state.nm[o]
-        if axr & set(m.needed_roots(o)):
+        inv = state.inv()
+        if axr & {inv[r] for r in state.root_args(prod[c])}:
             continue  # documented: needs Pipeline.map
         plans = [("root", dag_kwargs(ctx, state, o, oi), ())]
         if full and not state.opaque:
@@ -546,13 +590,15 @@ def check_calls(ctx: Ctx, cur, state: State, full: bool) -> None:
             except Missing as e:  # model bug guard
                 raise AssertionError(f"model: {e}") from e
             if pname == "root" and o not in ctx.src_checked:
+                # the untouched ORIGINAL object agrees with the reference (independent of the current structure)
                 ctx.src_checked.add(o)
+                kws = {r: f"V{r}" for i, r in enumerate(m.needed_roots(o)) if not (r in m.defaults and (ctx.pick >> (1 + (oi + i) % 12)) & 1)}
                 for src, names in ctx.sources:
                     if o in names:
                         try:
-                            w2 = src(o, **kw)
-                            if w2 != want:
-                                out.fail("original-differs-from-model", f"{o}: original {w2!r} model {want!r}")
+                            w2 = src(o, **kws)
+                            if w2 != m.evaluate(o, kws)[0]:
+                                out.fail("original-differs-from-model", f"{o}: original {w2!r} model {m.evaluate(o, kws)[0]!r}")
                         except Exception as e:
                             out.fail(exc_bucket(e, "original-raised"), exc_detail(e))
             kwc = {state.nm[r]: v for r, v in kw.items()}
@@ -567,10 +613,10 @@ def check_calls(ctx: Ctx, cur, state: State, full: bool) -> None:
                 try:
                     got = cur(c, **restyle(kwc, sty))
                 except Exception as e:
-                    ctx.fail_exc(e, f"call-{pname}-{sty}-after:{ctx.tag()}", f"{c} {sorted(kwc)}")
+                    ctx.fail_exc(e, f"call-{pname}-{sty}-after:{ctx.last()}", f"{c} {sorted(kwc)}")
                     continue
                 if got != want:
-                    out.fail(f"value-{pname}-{sty}-after:{ctx.tag()}", f"{c}({sorted(kwc)}): got {got!r} want {want!r}")
+                    out.fail(f"value-{pname}-{sty}-after:{ctx.last()}", f"[{ctx.tag()}] {c}({sorted(kwc)}): got {got!r} want {want!r}")
 
 
 def check_map_dag(ctx: Ctx, cur, state: State) -> None:
@@ -584,7 +630,7 @@ def check_map_dag(ctx: Ctx, cur, state: State) -> None:
     try:
         res = cur.map(restyle(inputs, sty), parallel=False, storage="dict")
     except Exception as e:
-        ctx.fail_exc(e, f"map-raised-after:{ctx.tag()}", f"{sorted(inputs)}")
+        ctx.fail_exc(e, f"map-raised-after:{ctx.last()}", f"{sorted(inputs)}")
         return
     names = set()
     for o in state.retained():
@@ -592,30 +638,30 @@ def check_map_dag(ctx: Ctx, cur, state: State) -> None:
         names.add(c)
         axes, want = dag_expected_map(ctx, state, o, basekw)
         if c not in res:
-            out.fail(f"map-missing-output-after:{ctx.tag()}", c)
+            out.fail(f"map-missing-output-after:{ctx.last()}", c)
             continue
         got = res[c].output
         ctx.units += 1
         if not axes:
             if isinstance(got, np.ndarray) or got != want:
-                out.fail(f"map-value-after:{ctx.tag()}", f"{c}: got {got!r} want {want!r}")
+                out.fail(f"map-value-after:{ctx.last()}", f"[{ctx.tag()}] {c}: got {got!r} want {want!r}")
             continue
         ctx.labels.append("lifted-output")
         try:
-            have = tuple(cur.mapspec_axes[c])
+            have = out_axes(cur, c)
         except Exception as e:
-            out.fail(exc_bucket(e, "mapspec_axes-raised"), exc_detail(e))
+            out.fail(exc_bucket(e, "mapspecs-raised"), exc_detail(e))
             continue
         if sorted(have) != sorted(axes):
-            out.fail(f"axis-set-after:{ctx.tag()}", f"{c}: axes {have} want {axes}")
+            out.fail(f"axis-set-after:{ctx.last()}", f"[{ctx.tag()}] {c}: axes {have} want {axes}")
             continue
         got = np.asarray(got, dtype=object)
         want_t = np.transpose(want, [axes.index(a) for a in have]) if len(axes) > 1 else want
         if got.shape != want_t.shape or mp.canon(got) != mp.canon(want_t):
-            out.fail(f"axis-slice-after:{ctx.tag()}", f"{c}{list(have)}: got {mp.canon(got)} want {mp.canon(want_t)}")
+            out.fail(f"axis-slice-after:{ctx.last()}", f"[{ctx.tag()}] {c}{list(have)}: got {mp.canon(got)} want {mp.canon(want_t)}")
     extra = [k for k in res if k not in names]
     if extra:
-        out.fail(f"map-invented-output-after:{ctx.tag()}", extra)
+        out.fail(f"map-invented-output-after:{ctx.last()}", extra)
 
 
 # ------------------------------------------------------------------------------------------------
@@ -649,10 +695,27 @@ def lifted_slices(ctx: Ctx, r: str, n: int) -> list:
 
 
 def lifted_input(ctx: Ctx, r: str, n: int):
+    """p = [v0, v1, ...]: stacked along a new trailing axis when some MapSpec lists p (its rank is known to the
+    pipeline), otherwise a 1-D sequence whose elements are the whole values"""
     vals = lifted_slices(ctx, r, n)
     if isinstance(vals[0], str):
         return list(vals)
-    return np.stack(vals, axis=-1)
+    listed = any(fn["mapspec"] and p_["name"] == r and p_["spec"] is not None for fn in ctx.ext["funcs"] for p_ in fn["params"])
+    if listed:
+        return np.stack(vals, axis=-1)
+    arr = np.empty(n, dtype=object)
+    for i, v in enumerate(vals):
+        arr[i] = v
+    return arr
+
+
+def out_axes(cur, c: str) -> tuple:
+    """axes of output `c` as declared by the MapSpec of the function that produces it (() without MapSpec)"""
+    for ms in cur.mapspecs():
+        for a in ms.outputs:
+            if a.name == c:
+                return tuple(a.axes)
+    return ()
 
 
 def map_inputs_cur(ctx: Ctx, state: State) -> dict:
@@ -679,7 +742,7 @@ def check_map_map(ctx: Ctx, cur, state: State) -> None:
     try:
         res = cur.map(restyle(inputs, sty), internal_shapes=map_internal_shapes(ctx, state), parallel=False, storage="dict")
     except Exception as e:
-        ctx.fail_exc(e, f"map-raised-after:{ctx.tag()}", f"{sorted(inputs)}")
+        ctx.fail_exc(e, f"map-raised-after:{ctx.last()}", f"{sorted(inputs)}")
         return
     if not state.axes:
         ref = mp.denotation(prog, dict(ctx.map_base_inputs))
@@ -687,9 +750,9 @@ def check_map_map(ctx: Ctx, cur, state: State) -> None:
             c = state.nm[o]
             ctx.units += 1
             if c not in res:
-                out.fail(f"map-missing-output-after:{ctx.tag()}", c)
+                out.fail(f"map-missing-output-after:{ctx.last()}", c)
             elif mp.canon(res[c].output) != mp.canon(ref[o]):
-                out.fail(f"map-value-after:{ctx.tag()}", f"{c}: got {str(mp.canon(res[c].output))[:200]} want {str(mp.canon(ref[o]))[:200]}")
+                out.fail(f"map-value-after:{ctx.last()}", f"[{ctx.tag()}] {c}: got {str(mp.canon(res[c].output))[:200]} want {str(mp.canon(ref[o]))[:200]}")
             elif o in ctx.orig_map and mp.canon(ctx.orig_map[o]) != mp.canon(ref[o]):
                 out.fail("original-differs-from-model", o)
         return
@@ -725,37 +788,37 @@ def check_map_map(ctx: Ctx, cur, state: State) -> None:
         c = state.nm[o]
         ctx.units += 1
         if c not in res:
-            out.fail(f"map-missing-output-after:{ctx.tag()}", c)
+            out.fail(f"map-missing-output-after:{ctx.last()}", c)
             continue
         got = res[c].output
         try:
-            have = tuple(cur.mapspec_axes.get(c, ()))
+            have = out_axes(cur, c)
         except Exception as e:
-            out.fail(exc_bucket(e, "mapspec_axes-raised"), exc_detail(e))
+            out.fail(exc_bucket(e, "mapspecs-raised"), exc_detail(e))
             continue
         if not depends(o):
             if a["axis"] in have:
-                out.fail(f"axis-on-independent-output-after:{ctx.tag()}", f"{c}: axes {have}")
+                out.fail(f"axis-on-independent-output-after:{ctx.last()}", f"{c}: axes {have}")
             elif mp.canon(got) != mp.canon(refs[0][o]):
-                out.fail(f"axis-changed-independent-output-after:{ctx.tag()}", f"{c}: got {str(mp.canon(got))[:200]} want {str(mp.canon(refs[0][o]))[:200]}")
+                out.fail(f"axis-changed-independent-output-after:{ctx.last()}", f"{c}: got {str(mp.canon(got))[:200]} want {str(mp.canon(refs[0][o]))[:200]}")
             continue
         ctx.labels.append("lifted-output")
         if have.count(a["axis"]) != 1:
-            out.fail(f"axis-set-after:{ctx.tag()}", f"{c}: axes {have} lack {a['axis']}")
+            out.fail(f"axis-set-after:{ctx.last()}", f"[{ctx.tag()}] {c}: axes {have} lack {a['axis']}")
             continue
         want_axes = [x for x in prod[o]["out_axes"]]
         if [x for x in have if x != a["axis"]] != want_axes and prod[o]["mapspec"]:
-            out.fail(f"axis-reordered-existing-after:{ctx.tag()}", f"{c}: axes {have} original {want_axes}")
+            out.fail(f"axis-reordered-existing-after:{ctx.last()}", f"{c}: axes {have} original {want_axes}")
             continue
         pos = have.index(a["axis"])
         arr = np.asarray(got, dtype=object) if not isinstance(got, np.ma.MaskedArray) else got
         if arr.ndim <= pos or arr.shape[pos] != n:
-            out.fail(f"axis-shape-after:{ctx.tag()}", f"{c}: shape {arr.shape} axes {have}")
+            out.fail(f"axis-shape-after:{ctx.last()}", f"{c}: shape {arr.shape} axes {have}")
             continue
         for i in range(n):
             sl = np.take(arr, i, axis=pos)
             if mp.canon(sl) != mp.canon(refs[i][o]):
-                out.fail(f"axis-slice-after:{ctx.tag()}", f"{c}[{have}] n={i}: got {str(mp.canon(sl))[:200]} want {str(mp.canon(refs[i][o]))[:200]}")
+                out.fail(f"axis-slice-after:{ctx.last()}", f"[{ctx.tag()}] {c}[{have}] n={i}: got {str(mp.canon(sl))[:200]} want {str(mp.canon(refs[i][o]))[:200]}")
                 break
             if origs[i] is not None and o in origs[i] and mp.canon(origs[i][o].output) != mp.canon(refs[i][o]):
                 out.fail("original-differs-from-model", f"{o} slice {i}")
@@ -851,7 +914,8 @@ def _join_func_map(ctx: Ctx, rec: dict, k: int):
     prod = mp.func_of_output(prog)
     if st_.axes:
         return None  # an element-wise consumer of a lifted output would need the new axis as well
-    cands = st_.retained()
+    # not the auto-generated-MapSpec producers: naming their axes in a later consumer is C01's open finding
+    cands = [o for o in st_.retained() if prod[o]["mapspec"] or not prod[o]["out_axes"]]
     if not cands:
         return None
     o = cands[(rec["sel"] >> (4 * k)) % len(cands)]
@@ -941,10 +1005,6 @@ def op_join(ctx: Ctx, rec: dict) -> bool:
     return True
 
 
-def _funcs_with(cur, st_: State, name: str):
-    return [(cur[n.outs[0]], n) for n in st_.nodes if name in n.names()]
-
-
 def op_rename(ctx: Ctx, rec: dict) -> bool:
     st_ = ctx.state
     cur = ctx.cur
@@ -998,13 +1058,13 @@ def op_rename(ctx: Ctx, rec: dict) -> bool:
             ctx.fail_exc(e, f"update_renames-{frm}-raised", str(arg))
             return False
     else:
+        try:
+            fobj = {id(n): cur[n.outs[0]] for n in st_.nodes}  # pipeline[output_name], before anything is renamed
+        except Exception as e:
+            ctx.fail_exc(e, "getitem-raised")
+            return False
         for x, new in renames.items():
-            try:
-                targets = _funcs_with(cur, st_, x)
-            except Exception as e:
-                ctx.fail_exc(e, "getitem-raised", x)
-                return False
-            for f, n in targets:
+            for f, n in [(fobj[id(n)], n) for n in st_.nodes if x in n.names()]:
                 key = x
                 if frm == "original":
                     key = next(k for k, v in n.py.items() if v == x)
@@ -1026,17 +1086,23 @@ def _stale_check(ctx: Ctx) -> None:
     st_ = ctx.state
     cur = ctx.cur
     try:
-        have = set(cur.topological_generations.root_args) | set(cur.all_output_names)
+        views = {
+            "root_args/all_output_names": set(cur.topological_generations.root_args) | set(cur.all_output_names),
+            "output_to_func/graph": {k for k in cur.output_to_func if isinstance(k, str)} | {x for x in cur.graph.nodes if isinstance(x, str)},
+        }
     except Exception as e:
         ctx.fail_exc(e, "views-after-function-level-update-raised")
         return
     inner = {x for n in st_.nodes for x in n.inner_bound}
     want = set(st_.eff_roots()) | set(st_.produced())
-    if have - inner != want:
-        b = "DEFECT-unpickled-pipeline-stale-after-function-level-update" if ctx.unpickled else "pipeline-stale-after-function-level-update"
-        ctx.out.fail(b, f"[{ctx.tag()}] pipeline shows {sorted(have)} functions have {sorted(want)}")
+    for vname, have in views.items():
+        if have | inner != want | inner:
+            b = "DEFECT-unpickled-pipeline-stale-after-function-level-update" if ctx.unpickled else "pipeline-stale-after-function-level-update"
+            ctx.out.fail(b, f"[{ctx.tag()}] pipeline.{vname} shows {sorted(have)} functions have {sorted(want)}")
+            break
+    if ctx.unpickled:
         try:
-            cur.update_renames({})  # a pipeline-level call refreshes the views; keeps exploring behind the defect
+            cur.update_renames({})  # a pipeline-level call refreshes every view; keeps exploring behind the defect
         except Exception as e:
             ctx.fail_exc(e, "empty-update_renames-raised")
 
@@ -1140,10 +1206,12 @@ def op_nest(ctx: Ctx, rec: dict) -> bool:
             or any("." in x for n in S for x in n.names())
         )
 
-    if ctx.around:
+    why = "few-nodes" if len(st_.nodes) < 2 else "no-convex-single-leaf-subset"
+    if ctx.around and cands:
         cands = [S for S in cands if not risky(S)]
+        why = "around-defects"
     if not cands:
-        ctx.labels.append("nest:na")
+        ctx.labels.append(f"nest:na:{why}")
         return False
     sel = rec["sel"]
     S = cands[sel % len(cands)]
@@ -1185,6 +1253,9 @@ def op_nest(ctx: Ctx, rec: dict) -> bool:
     except Exception as e:
         if scoped and isinstance(e, ValueError) and "not a valid parameter name" in str(e):
             ctx.out.fail("DEFECT-nest-scoped-name-invalid-parameter", f"[{ctx.tag()}] {exc_detail(e)}")
+        elif type(e).__name__ == "NetworkXUnfeasible" and any(n.bound or n.inner_bound for n in S):
+            # the bound name is an upstream output: exposed as a parameter it closes a cycle
+            ctx.out.fail("DEFECT-nested-inner-bound-becomes-required", f"[{ctx.tag()}] nest: {exc_detail(e)}")
         else:
             ctx.fail_exc(e, f"nest-{via}-raised", f"{[n.outs for n in S]} new={new_arg}")
         if via != "ctor":
@@ -1203,7 +1274,7 @@ def op_nest(ctx: Ctx, rec: dict) -> bool:
     node = Node([m for n in S for m in n.members], params + sorted(inner_bound), inner_bound, exposed, {x: x for x in params + sorted(inner_bound) + exposed})
     node.nested = True
     node.inner_bound = set(inner_bound)
-    node.leaf_multi = len(leaf.outs) > 1 or leaf.leaf_multi
+    node.leaf_multi = len(leaf.outs) > 1 or any(n.leaf_multi for n in S)
     node.multi_member = any(len(n.outs) > 1 or n.multi_member for n in S)
     st_.nodes = [x for x in st_.nodes if id(x) not in ids] + [node]
     keep = {x for n in st_.nodes for x in n.names()}
@@ -1215,13 +1286,16 @@ def op_simplify(ctx: Ctx, rec: dict) -> bool:
     from pipefunc import NestedPipeFunc
 
     st_ = ctx.state
-    if st_.axes or ctx.kind == "map":
-        return False
+    if st_.axes or st_.opaque or ctx.kind == "map":
+        return False  # (after a simplification the structural model is only approximate: no second one)
     prod = st_.produced()
     leaves = st_.leaves()
     names = sorted(prod)
     sel = rec["sel"]
-    if sel & 3:  # prefer the output of a leaf node
+    sure = sorted(o for o in names if any(st_.root_args(P) == st_.root_args(prod[o]) for P in st_.deps(prod[o])))
+    if sel & 3 and sure:  # mostly a target for which the documented criterion guarantees a combinable node
+        target = sure[(sel >> 2) % len(sure)]
+    elif sel & 1:
         lo = sorted(o for n in leaves for o in n.outs)
         target = lo[(sel >> 2) % len(lo)]
     else:
@@ -1264,7 +1338,10 @@ def op_simplify(ctx: Ctx, rec: dict) -> bool:
             ctx.fail_exc(e, "simplify-raised", target)
         return False
     except Exception as e:
-        ctx.fail_exc(e, "simplify-raised", target)
+        if type(e).__name__ == "NetworkXUnfeasible" and any(n.bound or n.inner_bound for n in cone):
+            ctx.out.fail("DEFECT-nested-inner-bound-becomes-required", f"[{ctx.tag()}] simplified_pipeline: {exc_detail(e)}")
+        else:
+            ctx.fail_exc(e, "simplify-raised", target)
         return False
     try:
         kept = set(new.all_output_names)
@@ -1311,6 +1388,10 @@ def op_split(ctx: Ctx, rec: dict) -> bool:
     except ValueError as e:
         if len(comps) == 1 and "fully connected" in str(e):
             return False
+        if "fully connected" in str(e) and any(n.inner_bound for n in st_.nodes):
+            # the bound name exposed as a parameter of the nest connects otherwise separate components
+            ctx.out.fail("DEFECT-nested-inner-bound-becomes-required", f"[{ctx.tag()}] split_disconnected: {exc_detail(e)}")
+            return False
         ctx.fail_exc(e, "split-raised")
         return False
     except Exception as e:
@@ -1326,7 +1407,8 @@ def op_split(ctx: Ctx, rec: dict) -> bool:
         return False
     want = sorted(sorted(o for n in comp for o in n.outs) for comp in comps)
     if got != want:
-        ctx.out.fail("split-partition-differs", f"got {got} want {want}")
+        b = "DEFECT-nested-inner-bound-becomes-required" if any(n.inner_bound for n in st_.nodes) else "split-partition-differs"
+        ctx.out.fail(b, f"[{ctx.tag()}] split_disconnected: got {got} want {want}")
         return False
     comps.sort(key=lambda comp: sorted(o for n in comp for o in n.outs))
     k = rec["sel"] % len(comps)
@@ -1349,6 +1431,12 @@ def op_split(ctx: Ctx, rec: dict) -> bool:
     return True
 
 
+def _mixed_use(ctx: Ctx, r: str) -> bool:
+    """root `r` is indexed by some MapSpec and used whole (not listed) by another function"""
+    uses = [(fn["mapspec"] and p_["spec"] is not None) for fn in ctx.ext["funcs"] for p_ in fn["params"] if p_["name"] == r]
+    return any(uses) and not all(uses)
+
+
 def op_axis(ctx: Ctx, rec: dict) -> bool:
     st_ = ctx.state
     if ctx.around and st_.has_nested():
@@ -1360,6 +1448,8 @@ def op_axis(ctx: Ctx, rec: dict) -> bool:
         if st_.axes:
             return False
         cands = [c for c in st_.eff_roots() if inv[c] in ctx.prog0["roots"]]
+        if ctx.around:
+            cands = [c for c in cands if not _mixed_use(ctx, inv[c])]
     else:
         if len(st_.axes) >= 2:
             return False
@@ -1379,7 +1469,10 @@ def op_axis(ctx: Ctx, rec: dict) -> bool:
     try:
         ctx.cur.add_mapspec_axis(*chosen, axis=axis)
     except Exception as e:
-        ctx.fail_exc(e, "add_mapspec_axis-raised", f"{chosen}")
+        if ctx.kind == "map" and isinstance(e, ValueError) and "are inconsistent" in str(e) and _mixed_use(ctx, inv[chosen[0]]):
+            ctx.out.fail("DEFECT-add_mapspec_axis-indexed-and-whole-root-inconsistent-axes", f"[{ctx.tag()}] {chosen}: {exc_detail(e)}")
+        else:
+            ctx.fail_exc(e, "add_mapspec_axis-raised", f"{chosen}")
         ctx.broken = True
         return False
     st_.axes.append({"axis": axis, "roots": [inv[c] for c in chosen], "n": n})
@@ -1417,8 +1510,6 @@ def run_sequence(ctx: Ctx, rws: list[dict]) -> None:
     if ctx.broken:
         return
     check_values(ctx, True)
-    if ctx.around and ctx.state.has_nested() and ctx.kind == "dag":
-        pass
     # ---- non-interference, part 1: inputs of new-pipeline operations are unchanged by everything done later
     _check_frozen(ctx, "later-rewrites")
     # ---- a later update_defaults / update_renames on the result
@@ -1438,7 +1529,7 @@ def run_sequence(ctx: Ctx, rws: list[dict]) -> None:
             st_.rename(x, "mutres")
     except Exception as e:
         mut_ok = False
-        ctx.fail_exc(e, f"mutate-result-raised-after:{ctx.tag()}")
+        ctx.fail_exc(e, f"mutate-result-raised-after:{ctx.last()}")
     _check_frozen(ctx, "mutation-of-result")
     for g, want_name in ctx.gs:
         if at_tuple(g.output_name)[0] != want_name:
@@ -1465,9 +1556,9 @@ def run_sequence(ctx: Ctx, rws: list[dict]) -> None:
             ctx.fail_exc(e, f"mutate-input-raised:{fr['why']}")
     if ctx.frozen:
         if snapshot(cur) != snap_cur:
-            out.fail(f"result-structure-changed-by-mutating-input:{ctx.tag()}", f"{snap_cur} -> {snapshot(cur)}")
+            out.fail(f"result-structure-changed-by-mutating-input:{ctx.last()}", f"{snap_cur} -> {snapshot(cur)}")
         elif ctx.sample(cur, st_) != vals_cur:
-            out.fail(f"result-values-changed-by-mutating-input:{ctx.tag()}", f"{vals_cur} -> {ctx.sample(cur, st_)}")
+            out.fail(f"result-values-changed-by-mutating-input:{ctx.last()}", f"{vals_cur} -> {ctx.sample(cur, st_)}")
 
 
 def _check_frozen(ctx: Ctx, when: str) -> None:
@@ -1511,7 +1602,7 @@ def body_dag(data) -> Outcome:
     ctx.prog2 = prog2
     labs = dag_labels(prog)
     graph_nt = bool({"diamond", "multi_output"} & set(labs))
-    ctx.labels += [l for l in labs if not l.startswith("nf")]
+    ctx.labels += labs
     ctx.ext = {"roots": prog["roots"] + prog2["roots"], "funcs": list(prog["funcs"]) + list(prog2["funcs"]), "order": []}
     try:
         orig = build_dag(prog)
@@ -1579,77 +1670,122 @@ def body_map(data) -> Outcome:
 
 # ------------------------------------------------------------------------------------------------
 # strategies (JSON recipes)
+#
+# Hypothesis draws whatever comes *after* a large variable-size value with a strong bias towards minimal values
+# (measured here: sequence length 1 and the first operation in > 60 % of the cases).  The rewrite sequence is
+# therefore expanded from ONE integer drawn first (a pure function of that integer, so the case stays a JSON recipe
+# and replays exactly), and the second program is an index into a fixed family.
 
-_SEL = st.integers(0, 2**20 - 1)
+
+def _rw_record(rng, op: str) -> dict:
+    rec = {"op": op, "sel": rng.randrange(2**20)}
+    if op == "join":
+        rec.update(what=rng.choice(["prog", "prog", "func", "funcs2"]), via=rng.choice(["join", "or"]))
+    elif op == "joinf":
+        rec.update(op="join", what=rng.choice(["func", "funcs2"]), via=rng.choice(["join", "or"]))
+    elif op == "joinp":
+        rec.update(op="join", what="prog", via=rng.choice(["join", "or"]))
+    elif op == "rename":
+        rec.update(
+            level=rng.choice(["pipeline", "function"]), frm=rng.choice(["current", "original"]),
+            n=rng.randint(1, 3), style=rng.choice(["plain", "plain", "dotted"]),
+        )  # fmt: skip
+    elif op == "scope":
+        rec.update(
+            scope=rng.choice(SCOPES), inputs=rng.choice(["*", "*", "some", None]),
+            outputs=rng.choice(["*", "*", "some", None]), exclude=rng.choice([False, False, True]),
+        )  # fmt: skip
+    elif op == "unscope":
+        rec.update(part=rng.choice(["*", "*", "some"]))
+    elif op == "nest":
+        rec.update(new=rng.choice(["none", "min", "some", "all"]), via=rng.choice(["nest_funcs", "nest_funcs", "star", "ctor"]))
+    elif op == "simplify":
+        rec.update(conservative=rng.choice([False, False, True]), default_out=rng.choice([False, True]))
+    elif op == "axis":
+        rec.update(k=rng.choice([1, 1, 2]), n=rng.choice([2, 3]))
+    return rec
 
 
-def _rec(op, **kw):
-    return st.fixed_dictionaries({"op": st.just(op), "sel": _SEL, **kw})
-
-
-R_COPY = _rec("copy")
-R_PICKLE = _rec("pickle")
-R_JOIN = _rec("join", what=st.sampled_from(["prog", "prog", "func", "funcs2"]), via=st.sampled_from(["join", "or"]))
-R_JOINF = _rec("join", what=st.sampled_from(["func", "funcs2"]), via=st.sampled_from(["join", "or"]))
-R_RENAME = _rec(
-    "rename", level=st.sampled_from(["pipeline", "function"]), frm=st.sampled_from(["current", "original"]),
-    n=st.integers(1, 3), style=st.sampled_from(["plain", "plain", "dotted"]),
+DAG_KINDS = (
+    ["copy"] * 2 + ["pickle"] * 2 + ["join"] * 2 + ["rename"] * 4 + ["scope"] * 3 + ["unscope"] + ["nest"] * 5
+    + ["simplify"] * 4 + ["split"] + ["axis"] * 3
 )  # fmt: skip
-R_SCOPE = _rec(
-    "scope", scope=st.sampled_from(SCOPES), inputs=st.sampled_from(["*", "*", "some", None]),
-    outputs=st.sampled_from(["*", "*", "some", None]), exclude=st.sampled_from([False, False, True]),
-)  # fmt: skip
-R_UNSCOPE = _rec("unscope", part=st.sampled_from(["*", "*", "some"]))
-R_NEST = _rec("nest", new=st.sampled_from(["none", "min", "some", "all"]), via=st.sampled_from(["nest_funcs", "nest_funcs", "star", "ctor"]))
-R_SIMPLIFY = _rec("simplify", conservative=st.sampled_from([False, False, True]), default_out=st.booleans())
-R_SPLIT = _rec("split")
-R_AXIS = _rec("axis", k=st.sampled_from([1, 1, 2]), n=st.sampled_from([2, 3]))
-
-DAG_ANY = st.one_of(
-    R_COPY, R_PICKLE, R_JOIN, R_RENAME, R_RENAME, R_RENAME, R_SCOPE, R_SCOPE, R_UNSCOPE, R_NEST, R_NEST, R_NEST,
-    R_SIMPLIFY, R_SIMPLIFY, R_SPLIT, R_AXIS, R_AXIS,
-)  # fmt: skip
-MAP_ANY = st.one_of(R_COPY, R_PICKLE, R_JOINF, R_RENAME, R_SCOPE, R_UNSCOPE, R_AXIS, R_AXIS)
+MAP_KINDS = ["copy", "pickle", "joinf", "rename", "rename", "scope", "scope", "unscope", "axis", "axis", "axis"]
 
 
-def _seqs(any_, with_split: bool):
-    free = st.lists(any_, min_size=1, max_size=3)
-    scoped = st.tuples(R_SCOPE, any_, st.one_of(R_UNSCOPE, any_)).map(list)
-    scoped2 = st.tuples(R_SCOPE, st.one_of(R_UNSCOPE, any_)).map(list)
-    alts = [free, free, free, free, scoped, scoped2]
-    if with_split:
-        alts.append(st.tuples(_rec("join", what=st.just("prog"), via=st.sampled_from(["join", "or"])), st.one_of(R_SPLIT, any_), any_).map(list))
-        alts.append(st.tuples(_rec("join", what=st.just("prog"), via=st.sampled_from(["join", "or"])), R_SPLIT).map(list))
-    return st.one_of(*alts)
+def expand_rw(seed: int, kinds: list[str], with_split: bool) -> list[dict]:
+    import random
+
+    rng = random.Random(seed)
+    any_ = lambda: rng.choice(kinds)  # noqa: E731
+    shape = rng.choice(["free"] * 7 + ["scoped3", "scoped2"] + (["join3", "join2"] if with_split else []))
+    if shape == "free":
+        ops = [any_() for _ in range(rng.choice([1, 2, 2, 3, 3, 3]))]
+    elif shape == "scoped3":
+        ops = ["scope", any_(), rng.choice(["unscope", any_()])]
+    elif shape == "scoped2":
+        ops = ["scope", rng.choice(["unscope", any_()])]
+    elif shape == "join3":
+        ops = ["joinp", rng.choice(["split", any_()]), any_()]
+    else:
+        ops = ["joinp", "split"]
+    return [_rw_record(rng, op) for op in ops]
+
+
+def _fn(name, params, outs, **kw):
+    d = {
+        "name": name, "params": params, "orig": list(params), "outs": outs, "orig_outs": list(outs), "sig_defaults": {},
+        "pf_defaults": {}, "bound": {}, "picker": "tuple" if len(outs) > 1 else None, "cache": False,
+    }  # fmt: skip
+    d.update(kw)
+    return d
+
+
+# the name-disjoint second program (before prefixing): chain, tuple output, bound, default, nullary, two components
+PROG2_FAMILY = [
+    {"roots": ["r0"], "funcs": [_fn("f0", ["r0"], ["o0"])], "order": [0]},
+    {"roots": ["r0", "r1"], "funcs": [_fn("f0", ["r0"], ["o0"]), _fn("f1", ["o0", "r1"], ["o1"])], "order": [1, 0]},
+    {"roots": ["r0"], "funcs": [_fn("f0", ["r0"], ["o0a", "o0b"]), _fn("f1", ["o0b"], ["o1"], orig=["q0"])], "order": [0, 1]},
+    {"roots": ["r0", "r1"], "funcs": [_fn("f0", ["r0", "r1"], ["o0"], bound={"r1": "B0r1"}), _fn("f1", ["o0"], ["o1"])], "order": [0, 1]},
+    {"roots": ["r0"], "funcs": [_fn("f0", ["r0"], ["o0"], sig_defaults={"r0": "Dr0"}, orig_outs=["raw_o0"])], "order": [0]},
+    {"roots": ["r0"], "funcs": [_fn("f0", [], ["o0"]), _fn("f1", ["r0"], ["o1"])], "order": [0, 1]},
+]
+
+
+# None-returning tracers (a later addition to the shared generator) are C01's subject, not a rewrite concern
+import inspect as _inspect
+
+_MP_EXTRA = {"allow_none": False} if "allow_none" in _inspect.signature(mp.map_programs).parameters else {}
 
 
 def campaigns(tier):
+    progs = st.one_of(
+        dag_programs(max_funcs=5, consistent_ignored_defaults=True),
+        dag_programs(max_funcs=5, min_funcs=2, allow_bound=False, consistent_ignored_defaults=True),
+        # chains and diamonds of single-output functions: every nest/simplify precondition is frequent
+        dag_programs(max_funcs=5, min_funcs=2, allow_bound=False, allow_multi=False, allow_nullary=False, consistent_ignored_defaults=True),
+    )
     dag = st.fixed_dictionaries(
         {
-            "prog": st.one_of(
-                dag_programs(max_funcs=5, consistent_ignored_defaults=True),
-                dag_programs(max_funcs=5, min_funcs=2, allow_bound=False, consistent_ignored_defaults=True),
-                # chains and diamonds of single-output functions: every nest/simplify precondition is frequent
-                dag_programs(max_funcs=5, min_funcs=2, allow_bound=False, allow_multi=False, allow_nullary=False, consistent_ignored_defaults=True),
-            ),
-            "prog2": dag_programs(max_funcs=2, consistent_ignored_defaults=True),
-            "rw": _seqs(DAG_ANY, True),
             "pick": st.integers(0, 2**16 - 1),
             "around": st.sampled_from([True, True, True, False]),
             "union": st.sampled_from([False, False, False, True]),
+            "prog2": st.sampled_from(PROG2_FAMILY),
+            "rw": st.integers(0, 2**48 - 1).map(lambda s: expand_rw(s, DAG_KINDS, True)),
+            "prog": progs,
         }
     )
     mpc = st.fixed_dictionaries(
         {
-            "prog": mp.map_programs(max_funcs=3, max_rank=2, storages=("dict",), max_size=2),
-            "rw": _seqs(MAP_ANY, False),
             "pick": st.integers(0, 2**16 - 1),
-            "around": st.just(True),
+            "around": st.sampled_from([True, True, True, False]),
+            "rw": st.integers(0, 2**48 - 1).map(lambda s: expand_rw(s, MAP_KINDS, False)),
+            "prog": mp.map_programs(max_funcs=3, max_rank=2, storages=("dict",), max_size=2, **_MP_EXTRA),
         }
     )
     return [
-        Campaign("dag", body_dag, dag, quick=4000, thorough=60000, describe="DagPrograms x <=3 rewrites, pipeline(...) and map"),
-        Campaign("map", body_map, mpc, quick=800, thorough=12000, describe="MapPrograms x <=3 rewrites under map"),
+        Campaign("dag", body_dag, dag, quick=5000, thorough=200000, describe="DagPrograms x <=3 rewrites, pipeline(...) and map"),
+        Campaign("map", body_map, mpc, quick=800, thorough=40000, describe="MapPrograms x <=3 rewrites under map"),
     ]
 
 
